@@ -7,6 +7,7 @@ fn main() {
     let rep = match args.prop.as_str() {
         "C01" => wire_eng::c01(&args),
         "C02" => wire_eng::c02(&args),
+        "C03" => wire_eng::c03(&args),
         p => {
             eprintln!("unknown property {}", p);
             std::process::exit(2);
